@@ -490,11 +490,15 @@ theorem T_C12_write_failure_recover (m : Mesh) :
 /-! ### an exception inside `assemble()` (round 6c) -/
 
 /-- Without edge data `factory.create` raises on, the exception-aware functions the driver runs are the plain ones all
-    theorems above are about: `assemble` never raises, `write` leaves the same state. -/
+    theorems above are about: `assemble` and `backport` never raise, `write` leaves the same state (`stepX` is `step` for every
+    call: for all other calls by definition). -/
 theorem T_C12_stepX_ok (m : Mesh) (h : ∀ o ∈ m.depot, NoInvalid o) :
-    assembleX m = (assemble m, false) ∧ stepX m .assemble = step m .assemble ∧ stepX m .write = step m .write := by
+    assembleX m = (assemble m, false) ∧ stepX m .assemble = step m .assemble ∧ stepX m .backport = step m .backport ∧
+    stepX m .write = step m .write := by
   have ha := assembleX_ok m h
-  refine ⟨ha, by simp [stepX, step, ha], ?_⟩
+  refine ⟨ha, by simp [stepX, step, ha], ?_, ?_⟩
+  · simp only [stepX, step, backportX_ok m h]
+    cases backport m <;> rfl
   simp only [stepX, step, writeX, write, ha]
   by_cases hs : isAssembled m = true
   · by_cases hd : (gradeBlocks m).lists.blocks.all Block.isDefined = true <;> simp [hs, hd, -List.all_eq_true]
@@ -502,6 +506,11 @@ theorem T_C12_stepX_ok (m : Mesh) (h : ∀ o ∈ m.depot, NoInvalid o) :
     · by_cases hd : (gradeBlocks (assemble m)).lists.blocks.all Block.isDefined = true <;>
         simp [hs, hb, hd, -List.all_eq_true]
     · simp [hs, hb]
+
+/-- … along every history: what the driver runs (`stepX`, exceptions included) is the history the theorems are about
+    (`run` = `step`), as long as no `add` brings invalid edge data (`backport` keeps edge data, so the depot stays valid). -/
+theorem T_C12_runX (hist : List Step) (hs : ∀ s ∈ hist, StepOk s) : hist.foldl stepX {} = run {} hist :=
+  runX_eq_run {} hist (by intro o ho; simp at ho) hs
 
 /-- What an `assemble()` that is left by an exception leaves behind: the lists hold everything the live operations before
     the failing one (`pre`) contributed — reached without an exception —, plus the vertices of the failing operation `b` and
@@ -759,5 +768,12 @@ example : ∀ o ∈ (run {} exHistory).depot, NoInvalid o := by
   rw [this] at ho
   simp only [List.mem_cons, List.not_mem_nil, or_false] at ho
   rcases ho with rfl | rfl <;> decide
+
+/-- hypothesis of `T_C12_runX`: the calls of the example history bring valid edge data only -/
+example : ∀ s ∈ exHistory, StepOk s := by
+  intro s hs
+  simp only [exHistory, List.mem_cons, List.not_mem_nil, or_false] at hs
+  rcases hs with rfl | rfl | rfl | rfl | rfl | rfl | rfl <;>
+    first | exact trivial | (apply noInvalid_of_slots; decide)
 
 end CBV.C12
